@@ -126,6 +126,21 @@ def run(ctx: core.Ctx) -> core.Report:
             corrupt = (rng.randrange(k), rng.choice(["pv", "mt", "rc", "len_small", "len_big", "trunc"]))
         cases.append(("D", (hs, corrupt)))
 
+    # -- E: mutated / raw headers into the decoder (decoder soundness: what is accepted IS the layout of what is returned)
+    for i in range(ctx.n(500, 6000)):
+        base = mk(gen_header(rng)).build()
+        r = rng.random()
+        b = bytearray(base)
+        if r < 0.35:
+            b[4:8] = struct.pack("!I", rng.choice([0, 1, 4, 7, 8, 9, len(base) - 8 - 1, len(base) - 8 + 1, 0xFFFFFFFF]))
+        elif r < 0.6:
+            b[rng.randrange(len(b))] ^= 1 << rng.randrange(8)
+        elif r < 0.8:
+            b = b[: rng.randrange(0, len(b) + 1)]
+        else:
+            b = bytearray(gen.rbytes(rng, rng.choice([0, 1, 15, 16, 17, 40])))
+        cases.append(("E", bytes(b) + gen.rbytes(rng, rng.choice([0, 0, 8]))))
+
     # ---- execute on the implementation, collect model ops
     ops = []
     todo = []
@@ -141,6 +156,15 @@ def run(ctx: core.Ctx) -> core.Report:
             todo.append((kind, data, i0, (ib, ip)))
             rep.nontrivial.add(key_of(h, len(suffix), 1))
             rep.dist["A:payload=%s" % (len(h["payload"]) if len(h["payload"]) in gen.PAYLOAD_LENS_BIG else "<=600")] += 1
+        elif kind == "E":
+            ip = impl_parse(data)
+            i0 = len(ops)
+            ops.append(f"hdr.parse {hx(data)}")
+            if ip.startswith("ok "):
+                t = ip.split(" ")
+                ops.append("spec.layout " + " ".join(t[1:10]))
+            todo.append((kind, data, i0, ip))
+            rep.dist["E:" + ip.split(" ")[0] + ("" if ip.startswith("ok") else ":" + ip[4:])] += 1
         elif kind == "B":
             h, f = data
             ib = impl_build(h)
@@ -203,6 +227,19 @@ def run(ctx: core.Ctx) -> core.Report:
                 want = f"ok {hdr_tokens(h)} {hx(suffix)}"
                 if h["pv"] == 1 and ip != want:
                     rep.violation("C01:roundtrip", f"decode(encode(m)+suffix) = {ip[:200]} expected {want[:200]}", case)
+        elif kind == "E":
+            ip = impl
+            case = {"kind": "E", "input": hx(data)}
+            if ip != outs[i0]:
+                rep.disagree(ops[i0][:300], outs[i0][:300], ip[:300], case)
+            if ip.startswith("ok "):
+                # oracle (c01_parse_sound): the input is exactly the layout of the decoded value followed by the rest
+                rest = ip.split(" ")[10]
+                lay = outs[i0 + 1].split(" ")[1]
+                if gen.unhx(lay) + gen.unhx(rest) != data:
+                    rep.violation("C01:decoder-unsound", "accepted bytes are not the layout of the decoded message plus the returned rest "
+                                  "(length field / payload mismatch)", case)
+                rep.nontrivial.add(("E", len(data) % 9, rest == "-"))
         elif kind == "B":
             h, f = data
             ib, neg = impl
